@@ -779,7 +779,7 @@ func (e *Env) localVar(name string) (TV, bool) {
 	if e.loop != nil && e.loop.spec != nil {
 		for _, g := range e.loop.spec.Ghosts {
 			if g.Name == name {
-				gt := g.goType(u.eng, e.fn.Pkg.Pkg)
+				gt := g.goType(u.eng, fnPkg(e.fn))
 				return TV{T: u.heap(e.st, loopGhostHeap(e.fn, e.loop, name), u.ty.sortOf(gt)), Ty: gt}, true
 			}
 		}
@@ -806,7 +806,7 @@ func (e *Env) localVar(name string) (TV, bool) {
 		for ord, ls := range con.Loops {
 			for _, g := range ls.Ghosts {
 				if g.Name == name {
-					gt := g.goType(u.eng, e.fn.Pkg.Pkg)
+					gt := g.goType(u.eng, fnPkg(e.fn))
 					return TV{T: u.heap(e.st, fmt.Sprintf("lg$%s$%d$%s", mangle(e.fn.Name()), ord, name), u.ty.sortOf(gt)), Ty: gt}, true
 				}
 			}
@@ -955,6 +955,29 @@ func (e *Env) localVarOK(name string) (TV, bool) {
 func (e *Env) field(base TV, name string) TV {
 	u := e.u
 	t := types.Unalias(base.Ty)
+	// promoted fields of embedded structs: resolve the selection path first
+	{
+		lt := t
+		if base.LV != nil {
+			lt = base.LV.ty
+		}
+		if obj, index, _ := types.LookupFieldOrMethod(lt, true, nil, name); obj != nil && len(index) > 1 {
+			if _, isVar := obj.(*types.Var); isVar {
+				cur := base
+				ct := lt
+				for _, ix := range index {
+					st := derefNamed(ct)
+					sst, ok := st.Underlying().(*types.Struct)
+					if !ok {
+						specErr("promoted field %s: not a struct %s", name, st)
+					}
+					cur = e.field(cur, sst.Field(ix).Name())
+					ct = sst.Field(ix).Type()
+				}
+				return cur
+			}
+		}
+	}
 	if base.LV != nil {
 		st := u.structOf(base.LV.ty)
 		for i := 0; i < st.NumFields(); i++ {
@@ -1238,6 +1261,9 @@ func (e *Env) callExpr(x *ast.CallExpr) TV {
 		a, b := e.eval(x.Args[0]), e.eval(x.Args[1])
 		fn := map[string]string{"strings.HasPrefix": "str_hasprefix", "strings.HasSuffix": "str_hassuffix", "strings.Contains": "str_contains"}[name]
 		u.s.declFun(fn, []Sort{SStr, SStr}, SBool)
+		if fn == "str_hasprefix" {
+			u.prefixFacts()
+		}
 		return TV{T: sx(fn, a.T, b.T), Ty: tBool}
 	case "cutBefore", "cutAfter", "cutFound":
 		a, b := e.eval(x.Args[0]), e.eval(x.Args[1])
